@@ -191,6 +191,14 @@ def disp_delay_s(dm, f_hz, fref_hz):
     return K_DM * dm * (1 / fm**2 - 1 / rm**2)
 
 
+def delay_fuzz(dm, f_hz, fref_hz, rate_hz):
+    """How far (in samples) a float64 evaluation of the delay may sit from the exact value: each term
+    K*DM/f^2 carries a few eps of relative error (unit conversions, division, square).  Used to decide
+    when a ceil/round of the delay is ambiguous (either neighbour acceptable)."""
+    fm, rm = f_hz / 10**6, fref_hz / 10**6
+    return F(1, 10**6) + 64 * F(2.220446049250313e-16) * K_DM * abs(dm) * rate_hz * (1 / fm**2 + 1 / rm**2)
+
+
 def chirp_phase_cycles(dm, f_hz, fref_hz):
     """K*DM*f*(1/fref - 1/f)^2 in cycles, exact. (K in s MHz^2 -> f in MHz gives s*MHz = 1e6 cycles)"""
     fm, rm = f_hz / 10**6, fref_hz / 10**6
